@@ -736,6 +736,8 @@ pub struct Diff {
     pub detail: String,
     /// tag of the expected node
     pub tag: &'static str,
+    /// label of the expected node
+    pub want_label: String,
 }
 
 impl Diff {
@@ -760,19 +762,19 @@ pub fn diff(want: &Node, got: &Node, opts: &DiffOpts, path: &mut Vec<&'static st
     }
     path.push(want.kind);
     if want.kind != got.kind {
-        out.push(Diff { path: path.clone(), what: "kind", tag: want.tag, detail: format!("expected {} {:?}, got {} {:?}", want.kind, want.label, got.kind, got.label) });
+        out.push(Diff { path: path.clone(), what: "kind", tag: want.tag, want_label: want.label.clone(), detail: format!("expected {} {:?}, got {} {:?}", want.kind, want.label, got.kind, got.label) });
         path.pop();
         return;
     }
     if want.label != got.label {
         let tag = if want.tag == "block" { if want.raw_inner.as_deref() == Some(got.label.as_str()) { "block-raw-returned" } else { "block-other" } } else { want.tag };
-        out.push(Diff { path: path.clone(), what: "label", tag, detail: format!("{}: expected {:?}, got {:?}", want.kind, want.label, got.label) });
+        out.push(Diff { path: path.clone(), what: "label", tag, want_label: want.label.clone(), detail: format!("{}: expected {:?}, got {:?}", want.kind, want.label, got.label) });
     }
     if opts.positions && want.p.set {
         let ok = |w: &P| got.p.set && got.p.line == w.line && (got.p.col == w.col || got.p.col == w.col16);
         let good = ok(&want.p) || want.alt_p.as_ref().is_some_and(|a| a.set && ok(a));
         if !good {
-            out.push(Diff { path: path.clone(), what: "position", tag: want.tag, detail: format!("{} {:?}: token starts at line {} col {} (utf16 {}), reported line {} col {}", want.kind, want.label, want.p.line, want.p.col, want.p.col16, got.p.line, got.p.col) });
+            out.push(Diff { path: path.clone(), what: "position", tag: want.tag, want_label: want.label.clone(), detail: format!("{} {:?}: token starts at line {} col {} (utf16 {}), reported line {} col {}", want.kind, want.label, want.p.line, want.p.col, want.p.col16, got.p.line, got.p.col) });
         }
     }
     if want.kids.len() != got.kids.len() {
@@ -786,7 +788,7 @@ pub fn diff(want: &Node, got: &Node, opts: &DiffOpts, path: &mut Vec<&'static st
             let _ = write!(s, "{}:{} ", k.kind, crate::report::clip(&k.label, 20));
         }
         s.push(']');
-        out.push(Diff { path: path.clone(), what: "arity", tag: want.tag, detail: s });
+        out.push(Diff { path: path.clone(), what: "arity", tag: want.tag, want_label: want.label.clone(), detail: s });
         path.pop();
         return;
     }
